@@ -149,8 +149,9 @@ class IoModel:
         R("fs::write", lambda ex, st, fr, c, a, d, r: io.call(ex, st, d, r, "write", VUnit(), path=path_desc(st, a[0]), data=["whole-file"], create=True))
         R("fs::copy", lambda ex, st, fr, c, a, d, r: io.call(ex, st, d, r, "write", VInt(0, "u64"), path=path_desc(st, a[1]), data=["copy"], create=True))
         R("fs::hard_link", lambda ex, st, fr, c, a, d, r: io.call(ex, st, d, r, "rename", VUnit(), path=path_desc(st, a[0]), dst=path_desc(st, a[1]), link=True))
-        R("File as Write::write_all", lambda ex, st, fr, c, a, d, r: io.call(
-            ex, st, d, r, "write", VUnit(), path=io.file_path(st, a[0]), data=[data_desc(st, a[1])]))
+        R(["File as Write::write_all", "&File as Write::write_all"], lambda ex, st, fr, c, a, d, r: io.call(
+            ex, st, d, r, "write", VUnit(), path=io.file_path(st, a[0]), data=[data_desc(st, a[1])], fd=fd_of(st, a[0])))
+        R(["Hasher::update_rayon"], m_hasher_update)
         # ---- BufWriter
         R("BufWriter::new", lambda ex, st, fr, c, a, d, r: VStruct("BufWriter", [a[0], VVec([])]))
         R("BufWriter::with_capacity", lambda ex, st, fr, c, a, d, r: VStruct("BufWriter", [a[1], VVec([])]))
@@ -174,6 +175,7 @@ class IoModel:
         R("NamedTempFile::new_in", m_tmp_new(io))
         R("NamedTempFile::reopen", lambda ex, st, fr, c, a, d, r: m_open(
             io, ex, st, d, r, ("staging", deref_all(st, a[0]).fields[0].data), dict(write=True, reopen=True)))
+        R(["NamedTempFile::as_file", "NamedTempFile::as_file_mut"], m_tmp_as_file)
         R("NamedTempFile::path", lambda ex, st, fr, c, a, d, r: VRef(st.alloc(P("staging", deref_all(st, a[0]).fields[0].data))))
         R("Builder::new", lambda ex, st, fr, c, a, d, r: VOpaque("tmpbuilder", {"rand": True}))
         R(["Builder::prefix", "Builder::suffix", "Builder::permissions", "Builder::append", "Builder::disable_cleanup", "Builder::keep"],
@@ -385,7 +387,7 @@ def m_bw_write(io):
                     s3.event("io", op="write", outcome="err", path=path, data=pend, why="BufWriter spill")
                     s3.meta["fault"] = ("write", path, len(s3.trace) - 1)
                     outs += ex.finish_call(s3, d, r, err(ioerr("Other", True)))
-                s2.event("io", op="write", outcome="ok", path=path, data=pend, why="BufWriter spill")
+                s2.event("io", op="write", outcome="ok", path=path, data=pend, why="BufWriter spill", fd=fd_of(s2, bw2.fields[0]))
                 outs += ex.finish_call(s2, d, r, ok(VUnit()))
             st.pc.append(z3.Not(sp))
         bw.fields[1].elems.append(VOpaque("chunk", data))
@@ -404,11 +406,11 @@ def flush_bw(io, ex, st, bwref, d, r, okval_fn, errval_fn, why):
     if st.faults_left > 0:
         s2 = st.clone()
         s2.faults_left -= 1
-        s2.event("io", op="write", outcome="err", path=path, data=pend, why=why)
+        s2.event("io", op="write", outcome="err", path=path, data=pend, why=why, fd=fd_of(s2, bw.fields[0]))
         s2.meta["fault"] = ("write", path, len(s2.trace) - 1)
         outs += ex.finish_call(s2, d, r, errval_fn(s2))
     bw.fields[1].elems[:] = []
-    st.event("io", op="write", outcome="ok", path=path, data=pend, why=why)
+    st.event("io", op="write", outcome="ok", path=path, data=pend, why=why, fd=fd_of(st, bw.fields[0]))
     outs += ex.finish_call(st, d, r, okval_fn(st))
     return outs
 
@@ -473,9 +475,25 @@ def m_tmp_new(io):
     def f(ex, st, fr, c, a, d, r):
         n = st.meta.get("ntmp", 0) + 1
         st.meta["ntmp"] = n
-        tmp = VStruct("NamedTempFile", [VOpaque("tmpid", n)])
+        tmp = VStruct("NamedTempFile", [VOpaque("tmpid", n), io.new_file(st, ("staging", n), write=True, own=True)])
         return io.call(ex, st, d, r, "create-temp", tmp, path=("staging", n))
     return f
+
+
+def m_tmp_as_file(ex, st, fr, c, a, d, r):
+    """NamedTempFile::as_file / as_file_mut: the temp file's OWN open file description (not the one reopen() returns)"""
+    ref = a[0]
+    while isinstance(st.load(ref), VRef):
+        ref = st.load(ref)
+    t = st.load(ref)
+    if not (isinstance(t, VStruct) and t.name == "NamedTempFile" and len(t.fields) > 1):
+        raise Unsupported("as_file on a temp file without a modelled handle")
+    return VRef(ref.cell, ref.path + (1,))
+
+
+def fd_of(st, f):
+    f = deref_all(st, f)
+    return f.data if isinstance(f, VOpaque) and f.tag == "file" else None
 
 
 def m_hasher_update(ex, st, fr, c, a, d, r):
@@ -638,7 +656,7 @@ def m_builder_make(io):
         n = st.meta.get("ntmp", 0) + 1
         st.meta["ntmp"] = n
         if b.data.get("rand", True):
-            tmp = VStruct("NamedTempFile", [VOpaque("tmpid", n)])
+            tmp = VStruct("NamedTempFile", [VOpaque("tmpid", n), io.new_file(st, ("staging", n), write=True, own=True)])
             return io.call(ex, st, d, r, "create-temp", tmp, path=("staging", n))
         # a fixed name: NOT a fresh file — an ordinary create/truncate open of a nameable path
         tmp = VStruct("NamedTempFile", [VOpaque("tmpid", "fixed-name")])
